@@ -138,10 +138,11 @@ def enum_worker(pid, tier, widx, nworkers, conn):
                 if j % nworkers != widx:
                     continue
                 n += 1
+                ctx = W.snapshot()
                 res = run_one(P, case, W, stats)
                 stats.extra["enum:" + name] = stats.extra.get("enum:" + name, 0) + 1
                 if res.violation and out["failure"] is None:
-                    out["failure"] = dict(case=S._enc(case), sig=res.violation[0], text=res.violation[1])
+                    out["failure"] = dict(case=S._enc(case), sig=res.violation[0], text=res.violation[1], prelude=ctx)
                     break
             if out["failure"]:
                 break
@@ -293,10 +294,18 @@ def main():
     for path in replays:
         if os.path.basename(path).startswith("fail-"):
             continue  # fresh failures of earlier runs are not regression cases until renamed/committed
+        ctx = W.snapshot()
         res = replay_file(P, path, W)
         nrep += 1
         if res.violation:
-            failures.append(dict(case=json.load(open(path))["case"], sig=res.violation[0], text=res.violation[1], path=path))
+            # (a committed regression case that fails only after another case in the same process is written out again with
+            # that case as its prelude)
+            f = dict(case=json.load(open(path))["case"], sig=res.violation[0], text=res.violation[1])
+            if ctx:
+                f["prelude"] = ctx
+            else:
+                f["path"] = path
+            failures.append(f)
     acc["extra"]["replay_cases"] = nrep
     W.close()
 
